@@ -23,6 +23,15 @@ Lemma for_do_S : forall St C E f nxt body s c, for_do St C E (S f) nxt body s c 
                    end).
 Proof. reflexivity. Qed.
 
+(* the scraped stepping of impl_ipairs_next: step 1, stop at k >= bound, offsets 1 / 0, initial controls 0 / -1; a
+   different policy in iterators.nelua stops these proofs (and the driver's yielded-pairs comparison) *)
+Lemma ip_policy : IP_STEP = 1%Z /\ (forall b k, ip_stop b k = (b <=? k)%Z) /\ Z.to_nat IP_OFF_ZERO = 0 /\ Z.to_nat IP_OFF_ONE = 1 /\
+  IP_INIT_ZERO = (-1)%Z /\ IP_INIT_ONE = 0%Z.
+Proof. repeat split. Qed.
+Ltac ip_norm := change IP_STEP with 1%Z in *; change (Z.to_nat IP_OFF_ZERO) with 0 in *; change (Z.to_nat IP_OFF_ONE) with 1 in *;
+  change IP_INIT_ZERO with (-1)%Z in *; change IP_INIT_ONE with 0%Z in *;
+  repeat match goal with |- context [ip_stop ?b ?k] => change (ip_stop b k) with (b <=? k)%Z end.
+
 (* ---- the index-stepping loop over a container whose element access leaves it unchanged *)
 Lemma for_in_ip : forall St E one (len : St -> nat) (at_ : nat -> St -> res (St * E)) s (l : list E),
   len s = length l ->
@@ -31,7 +40,7 @@ Lemma for_in_ip : forall St E one (len : St -> nat) (at_ : nat -> St -> res (St 
   for_in St Z E (S d) (ip_next St E one len at_) s (Z.of_nat (k + one) - 1)%Z =
     Ok (s, combine (map (fun i => Z.of_nat (i + one)) (List.seq k d)) (skipn k l)).
 Proof.
-  intros St E one len at_ s l Hlen Hat. induction d as [|d IH]; intros k Hd Hk; rewrite for_in_S; unfold ip_next at 1.
+  intros St E one len at_ s l Hlen Hat. induction d as [|d IH]; intros k Hd Hk; rewrite for_in_S; unfold ip_next at 1; ip_norm.
   - replace (Z.of_nat (k + one) - 1 + 1)%Z with (Z.of_nat (k + one)) by lia.
     destruct (Z.leb_spec (Z.of_nat (len s + one)) (Z.of_nat (k + one))); [|lia]. reflexivity.
   - replace (Z.of_nat (k + one) - 1 + 1)%Z with (Z.of_nat (k + one)) by lia.
@@ -52,7 +61,7 @@ Section Iter.
   Theorem vec_ipairs_ok : forall v, vec_wf T v ->
     vec_ipairs T v = Ok (v, combine (map Z.of_nat (List.seq 0 (vec_len T v))) (vec_contents T v)).
   Proof.
-    intros v W. unfold vec_ipairs, vec_ipairs_next.
+    intros v W. unfold vec_ipairs, vec_ipairs_next. ip_norm.
     pose proof (contents_length T v W) as L. change (vec_len T v) with (vsize T v).
     pose proof (for_in_ip (vec T) T 0 (vec_len T) (vec_get T) v (vec_contents T v)) as G.
     rewrite L in G. specialize (G eq_refl).
@@ -76,7 +85,7 @@ Section Iter.
       (fun _ r v => x <- vec_ref_read T r v ;; vec_ref_write T r (f x) v) (mkvec T data n) (Z.of_nat k - 1)%Z =
     Ok (mkvec T (map f (firstn n d0) ++ skipn n d0) n).
   Proof.
-    intros f d0 n. induction d as [|d IH]; intros k data Hn Hd Hk Hdata; rewrite for_do_S; unfold vec_mipairs_next, ip_next at 1;
+    intros f d0 n. induction d as [|d IH]; intros k data Hn Hd Hk Hdata; rewrite for_do_S; unfold vec_mipairs_next, ip_next at 1; ip_norm;
       unfold vec_len; cbn [vsize]; replace (Z.of_nat k - 1 + 1)%Z with (Z.of_nat k) by lia; rewrite Nat.add_0_r.
     - destruct (Z.leb_spec (Z.of_nat n) (Z.of_nat k)); [|lia]. cbn [rbind fst snd]. assert (k = n) by lia. subst. reflexivity.
     - destruct (Z.leb_spec (Z.of_nat n) (Z.of_nat k)); [lia|]. rewrite Nat2Z.id. unfold vec_ref; cbn [vsize].
@@ -104,7 +113,7 @@ Section Iter.
     exists v', vec_mipairs_map T f v = Ok v' /\ vec_wf T v' /\ vec_contents T v' = map f (vec_contents T v) /\
                vec_cap T v' = vec_cap T v.
   Proof.
-    intros f [d0 n] W. unfold Model.vec_wf in W; cbn [vsize vdata] in W. unfold vec_mipairs_map, vec_len; cbn [vsize].
+    intros f [d0 n] W. unfold Model.vec_wf in W; cbn [vsize vdata] in W. unfold vec_mipairs_map, vec_len; cbn [vsize]. ip_norm.
     change (-1)%Z with (Z.of_nat 0 - 1)%Z.
     rewrite (vec_mipairs_loop f d0 n n 0 d0 W ltac:(lia) ltac:(lia) eq_refl).
     eexists. split; [reflexivity|]. split; [|split].
@@ -119,7 +128,7 @@ Section Iter.
   Theorem span_ipairs_ok : forall (mem : list T) w, sp_wf mem w ->
     span_ipairs T mem w = Ok (w, combine (map Z.of_nat (List.seq 0 (sp_size w))) (sp_view T mem w)).
   Proof.
-    intros mem w W. unfold span_ipairs, span_ipairs_next.
+    intros mem w W. unfold span_ipairs, span_ipairs_next. ip_norm.
     pose proof (sp_view_len T mem w W) as L.
     pose proof (for_in_ip spanw T 0 sp_size (fun i w0 => x <- spw_at T i mem w0 ;; Ok (w0, x)) w (sp_view T mem w)) as G.
     rewrite L in G. specialize (G eq_refl).
@@ -148,7 +157,7 @@ Section Iter.
   Theorem seq_pairs_ok : forall s, seq_wf T s ->
     seq_pairs T dflt s = Ok (s, combine (map (fun i => Z.of_nat (i + 1)) (List.seq 0 (seq_len T s))) (seq_contents T s)).
   Proof.
-    intros s W. unfold seq_pairs, seq_ipairs_next.
+    intros s W. unfold seq_pairs, seq_ipairs_next. ip_norm.
     assert (length (seq_contents T s) = seq_len T s) as L.
     { rewrite (seq_contents_eq T dflt s W), (seq_len_eq T dflt s W). reflexivity. }
     pose proof (for_in_ip (seq T) T 1 (seq_len T) (seq_get T dflt) s (seq_contents T s)) as G.
